@@ -278,7 +278,7 @@ DEFAULT_FEATURES = dict(splits=True, nested_splits=True, chords=True, accidental
                         combining_sigs=False, dotted=True, rational=True, grace=True, nonascii=True, quote_cells=False,
                         uls_cells=False, notelike_nonkern=False, global_comments=True, field_comments=True, bboxes=True,
                         hidden_barlines=True, tandems=True, unknown_header=True, open_split_at_end=True, null_rows=True,
-                        pre_header_comments=True, measure_numbers=True)
+                        pre_header_comments=True, measure_numbers=True, combined_ops=True, early_terminate=True, unterminated=True)
 
 
 def swarm_features(rng, **overrides):
@@ -421,12 +421,59 @@ def gen_doc(rng: random.Random, F: dict | None = None, max_spines=4, max_rows=25
         depth[ci:ci + 2] = [d]
         return True
 
+    def do_combined():
+        """One spine-operator row that changes the layout of SEVERAL spines at once - a join here, a split or a terminator there -
+        so that columns shift while the column count may stay the same (legal: every column carries its own operator)."""
+        joins = join_candidates()
+        splits = [ci for ci, sp in enumerate(cols) if headers[sp] == KERN and depth[ci] < 2]
+        terms = [ci for ci, sp in enumerate(cols) if F['early_terminate'] and cols.count(sp) == 1 and len(set(cols)) > 1
+                 and any(headers[s2] == KERN for s2 in cols if s2 != sp)]
+        plan = {}
+        if joins and rng.random() < 0.7:
+            j = rng.choice(joins)
+            plan[j] = '*v'
+            plan[j + 1] = '*v'
+        free_splits = [ci for ci in splits if ci not in plan]
+        if free_splits and len(cols) < 6 and rng.random() < 0.8:
+            plan[rng.choice(free_splits)] = '*^'
+        free_terms = [ci for ci in terms if ci not in plan]
+        if free_terms and rng.random() < 0.5:
+            plan[rng.choice(free_terms)] = '*-'
+        kinds = set(plan.values())
+        if len(kinds) < 2:
+            return False
+        ops_row(plan)
+        new_cols, new_depth = [], []
+        ci = 0
+        while ci < len(cols):
+            op = plan.get(ci)
+            if op == '*^':
+                new_cols += [cols[ci], cols[ci]]
+                new_depth += [depth[ci] + 1, depth[ci] + 1]
+            elif op == '*-':
+                pass
+            elif op == '*v' and plan.get(ci + 1) == '*v':
+                new_cols.append(cols[ci])
+                new_depth.append(max(1, min(depth[ci], depth[ci + 1])) - 1)
+                ci += 1
+            else:
+                new_cols.append(cols[ci])
+                new_depth.append(depth[ci])
+            ci += 1
+        cols[:] = new_cols
+        depth[:] = new_depth
+        return True
+
     if rng.random() < 0.8:
         bar_row()
     body = 0
     since_bar = 0
     while body < n_body:
         r = rng.random()
+        if F['splits'] and F['combined_ops'] and r < 0.035 and do_combined():
+            data_row()
+            body += 2
+            continue
         if F['splits'] and r < 0.10 and do_split():
             data_row()
             body += 2
@@ -469,7 +516,10 @@ def gen_doc(rng: random.Random, F: dict | None = None, max_spines=4, max_rows=25
             do_join()
     if rng.random() < 0.5:
         bar_row(final=True)
-    rows.append(Row('term', [Cell('*-', 'op', sp) for sp in cols]))
+    if F['unterminated'] and rng.random() < 0.08:
+        data_row()          # a fragment: the last row is a data row, the spines are not closed by *-
+    else:
+        rows.append(Row('term', [Cell('*-', 'op', sp) for sp in cols]))
     if F['global_comments'] and rng.random() < 0.25:
         glob(rng.choice(['!!!EED: someone', '!! end', '!!!ONB: done']))
     return Doc(headers, rows, F)
